@@ -178,11 +178,15 @@ def same_node(ctx, f, cfg):
             s2 = Slicer(f, cb)
             sites = 0
             bad = 0
+            # (view: private recorder helpers are inlined, each copy with the node it was given) every statistics operation on a
+            # `dyn StatNode` receiver is made on the context's node or on the global inbound node
             for bb, t in cb.calls():
-                if t["args"] and "StatNode" in (t.get("arg_tys") or ["", ""])[min(1, len(t["args"]) - 1)] and callee_def(t).startswith("core::stat::"):
-                    a = s2.of_operand(t["args"][1]) if len(t["args"]) > 1 else set()
+                if t["args"] and "dyn core::base::stat::StatNode" in (t.get("arg_tys") or [""])[0] and callee_def(t).startswith("core::base::stat::"):
+                    a = s2.of_operand(t["args"][0])
                     sites += 1
-                    if not (any_atom(a, "call:EntryContext::stat_node") or any_atom(a, "call:inbound_node")):
+                    on_ctx = any_atom(a, "call:EntryContext::stat_node")
+                    on_inb = any_atom(a, "call:inbound_node")
+                    if on_ctx == on_inb:
                         bad += 1
             ctx.instance("C14.same-node/callbacks", cb.path, {"recording_calls": sites, "not_on_ctx_node_or_inbound": bad}, "all on ctx.stat_node() / inbound_node()", bad == 0 and sites > 0, cfg)
             if bad or not sites:
@@ -266,7 +270,7 @@ def rollover(ctx, f, cfg):
     gb = f.find("LeapArray::<T>::get_bucket_of_time")
     if gb:
         b = gb[0]
-        sites = [bb for bb, t in b.calls() if callee_is(t, "reset_bucket")]
+        sites = call_or_inlined(b, "reset_bucket")
         sl = Slicer(f, b)
         guarded = True
         for sb in sites:
@@ -275,7 +279,7 @@ def rollover(ctx, f, cfg):
                 t = b.term(d)
                 if t and t["k"] == "switch":
                     a = sl.of_operand(t["op"])
-                    if ("op:Gt" in a or "op:Lt" in a) and any_atom(a, "call:calculate_start_stamp") and any_atom(a, "call:start_stamp"):
+                    if ("op:Gt" in a or "op:Lt" in a) and (any_atom(a, "call:calculate_start_stamp") or ("op:Rem" in a and any_atom(a, "param:now"))) and any_atom(a, "call:start_stamp"):
                         okd = True
             guarded = guarded and okd
         ctx.instance("C14.rollover/guard", b.path, "reset only when the target start is newer than the bucket's stamp: %s (sites=%d)" % (guarded, len(sites)), "true", guarded and sites, cfg)
